@@ -17,6 +17,9 @@ pub struct Workload {
     pub no_messages: bool,
     /// --stats (only combined with -q here): no early quit, statistics on stdout.
     pub stats: bool,
+    /// Search every file through a (cat-like) preprocessor: results are the
+    /// same, but errors travel through another layer.
+    pub pre: bool,
 }
 
 const MODES: [&str; 12] = ["standard", "count", "files-with-matches", "quiet", "files", "json", "context", "files-without-match", "count-matches", "include-zero", "only-matching", "vimgrep"];
@@ -32,7 +35,8 @@ pub fn gen_workload(sub: u64) -> Workload {
     let sched = if threads > 1 { Some(gen_sched(&mut rng)) } else { None };
     let no_messages = rng.chance(1, 4);
     let stats = mode == "quiet" && rng.chance(1, 2);
-    Workload { corpus, mode, threads, sched, no_messages, stats }
+    let pre = mode != "files" && rng.chance(1, 6);
+    Workload { corpus, mode, threads, sched, no_messages, stats, pre }
 }
 
 fn base_args(w: &Workload) -> Vec<String> {
@@ -62,6 +66,9 @@ fn base_args(w: &Workload) -> Vec<String> {
     }
     if w.stats {
         a.push("--stats".into());
+    }
+    if w.pre {
+        a.extend(["--pre".into(), STUB.into()]);
     }
     if w.mode != "files" {
         a.push("foo".into());
@@ -134,6 +141,9 @@ pub fn run_workload(sub: u64, only_leg: Option<&str>, acc: &mut Acc, ctx: &Ctx, 
     acc.mix.inc(if w.threads == 1 { "single-threaded" } else { "multi-threaded(scheduled)" });
     if w.no_messages {
         acc.mix.inc("--no-messages");
+    }
+    if w.pre {
+        acc.mix.inc("--pre");
     }
     let line_mode = matches!(w.mode.as_str(), "standard" | "count" | "files-with-matches" | "files" | "files-without-match" | "count-matches" | "include-zero" | "only-matching" | "vimgrep");
 
